@@ -287,7 +287,7 @@ def do_replay(prop, replay, bins, work):
             json.dump([sc], f)
         path = os.path.join(work, "replay.ndjson")
         vf.run([bins["rec-board"], "-mode", "script", "-obs", rp.get("obs", REPLAY_OBS[prop]), "-in", os.path.join(work, "script.json"), "-out", path], timeout=300)
-    _, mm, total = tc.validate_trace(work, "GameTrace", path)
+    _, mm, total = tc.validate_trace(work, "GameTrace", path, env_extra={"PROP": prop})
     mine = [m for m in mm if m["rule"].startswith(RULES[prop]) or m["rule"].startswith("PANIC/")]
     known, new = vf.classify(prop, mine)
     for m in mine:
